@@ -89,6 +89,11 @@ fn want_of(s: &str) -> Option<Vec<&'static str>> {
         "n4" => Some(vec!["n4"]),
         "n6" => Some(vec!["n6"]),
         "both" => Some(vec!["n4", "n6"]),
+        "n6n4" => Some(vec!["n6", "n4"]),
+        "n6n6" => Some(vec!["n6", "n6"]),
+        "n4n4" => Some(vec!["n4", "n4"]),
+        "n4zz" => Some(vec!["n4", "zz"]),
+        "empty" => Some(vec![]),
         _ => None,
     }
 }
@@ -476,11 +481,8 @@ pub fn check(res: &RunResult, cfg: &NodeCfg, model: &mut Model) -> Findings {
 }
 
 fn check_families(f: &mut Findings, q: &Parsed, r: &Parsed, node_v6: bool) {
-    let (allow4, allow6) = if q.want.is_empty() {
-        (!node_v6, node_v6)
-    } else {
-        (q.want.iter().any(|w| w == "n4"), q.want.iter().any(|w| w == "n6"))
-    };
+    let (w4, w6) = (q.want.iter().any(|w| w == "n4"), q.want.iter().any(|w| w == "n6"));
+    let (allow4, allow6) = if !w4 && !w6 { (!node_v6, node_v6) } else { (w4, w6) };
     if (r.has_nodes && !allow4) || (r.has_nodes6 && !allow6) {
         f.items.push(("C05", "nodes-of-unrequested-family".into(), format!("{} want {:?}: reply has nodes={} nodes6={}", q.q, q.want, r.has_nodes, r.has_nodes6)));
     }
